@@ -1,9 +1,131 @@
-//! C17 sessions (seeded driver). Fill in.
+//! C17 sessions: a value is built with from_partial / new_with_overflow from random field records (any subset of
+//! fields, values over the whole u8 / u16 / i32 ranges, valid and invalid, month vs monthCode agreeing or not),
+//! then updated by a chain of `with` calls; both overflow modes and the default. PlainDate, PlainTime,
+//! PlainDateTime, PlainYearMonth and ZonedDateTime partials in fixed-offset zones.
 use super::Tracer;
 use crate::gen::*;
 use crate::rng::Rng;
-use serde_json::json;
+use serde_json::{json, Map, Value};
+
+const TIME_KEYS: [(&str, &str, i64, i64); 6] = [("hour", "h", 23, 255), ("minute", "mi", 59, 255), ("second", "s", 59, 255),
+    ("millisecond", "ms", 999, 65535), ("microsecond", "us", 999, 65535), ("nanosecond", "ns", 999, 65535)];
+
+pub fn any_year(r: &mut Rng) -> i64 {
+    match r.range(0, 19) {
+        0..=8 => r.range(1, 3000),
+        9 | 10 => -271_821 + r.range(-2, 2),
+        11 | 12 => 275_760 + r.range(-2, 2),
+        13 | 14 => r.range(-300_000, 300_000),
+        15 => r.range(-2_147_483_648, 2_147_483_647),
+        16 => *r.pick(&[2_147_483_647i64, -2_147_483_648, 5_879_611, -5_879_611, 1_471_746, 0, -1]),
+        _ => r.range(-5, 5) * 400 + r.range(0, 4),
+    }
+}
+/// a field value in 0..=tmax: mostly valid (0..=vmax), sometimes just beyond, sometimes anywhere in the type's range
+fn field(r: &mut Rng, lo: i64, vmax: i64, tmax: i64) -> i64 {
+    match r.range(0, 9) {
+        0..=5 => r.range(lo, vmax),
+        6 => *r.pick(&[0, lo, vmax, vmax + 1, tmax]),
+        7 => r.range(vmax + 1, tmax),
+        _ => r.range(0, tmax),
+    }
+}
+fn month_code(r: &mut Rng, near: i64) -> String {
+    match r.range(0, 9) {
+        0..=5 => format!("M{:02}", if (1..=12).contains(&near) && r.chance(2, 3) { near } else { r.range(1, 12) }),
+        6 => format!("M{:02}L", r.range(1, 12)),
+        7 => "M13".to_string(),
+        8 => "M00".to_string(),
+        _ => format!("M{:02}", r.range(13, 99)),
+    }
+}
+/// random date fields; `all` forces year, (month | monthCode) and day to be present most of the time
+fn date_fields(r: &mut Rng, m: &mut Map<String, Value>, with_day: bool, all: bool) {
+    let want = |r: &mut Rng| if all { r.chance(19, 20) } else { r.chance(1, 3) };
+    if want(r) { m.insert("year".into(), json!(any_year(r))); }
+    let mut month = -1;
+    let has_m = want(r);
+    if has_m && (r.chance(3, 4) || all && r.chance(1, 2)) { month = field(r, 1, 12, 255); m.insert("month".into(), json!(month)); }
+    if (has_m && month < 0) || r.chance(1, 5) { m.insert("monthCode".into(), json!(month_code(r, month))); }
+    if with_day && want(r) { let hi = 28 + r.range(0, 3); m.insert("day".into(), json!(field(r, 1, hi, 255))); }
+}
+fn time_fields(r: &mut Rng, m: &mut Map<String, Value>, density: u64) {
+    for (k, _, vmax, tmax) in TIME_KEYS.iter() {
+        if r.chance(density, 6) { m.insert((*k).into(), json!(field(r, 0, *vmax, *tmax))); }
+    }
+}
+fn ovf(r: &mut Rng, args: &mut Value) {
+    match r.range(0, 4) { 0 | 1 => { args["ovf"] = json!("constrain"); } 2 | 3 => { args["ovf"] = json!("reject"); } _ => {} }
+}
+fn positional(r: &mut Rng, ty: &str) -> Value {
+    let mut m = Map::new();
+    if ty != "time" {
+        m.insert("y".into(), json!(any_year(r)));
+        m.insert("m".into(), json!(field(r, 1, 12, 255)));
+        let hi = 28 + r.range(0, 3);
+        m.insert("d".into(), json!(field(r, 1, hi, 255)));
+    }
+    if ty != "date" {
+        for (_, s, vmax, tmax) in TIME_KEYS.iter() { m.insert((*s).into(), json!(field(r, 0, *vmax, *tmax))); }
+    }
+    m.insert("ovf".into(), json!(if r.chance(1, 2) { "constrain" } else { "reject" }));
+    Value::Object(m)
+}
 
 pub fn drive(t: &mut Tracer, r: &mut Rng, n: usize) {
-    let _ = (t, r, n);
+    let types = ["date", "time", "datetime", "yearmonth", "zoned", "date", "datetime"];
+    let names = |ty: &str| match ty { "date" => "PlainDate", "time" => "PlainTime", "datetime" => "PlainDateTime", "yearmonth" => "PlainYearMonth", _ => "ZonedDateTime" };
+    while t.n < n {
+        let ty = *r.pick(&types);
+        let name = names(ty);
+        // ---- obtain a value
+        let mut cur: Option<Value> = None;
+        for _ in 0..3 {
+            let out = if ty != "yearmonth" && ty != "zoned" && r.chance(1, 4) {
+                t.call(&format!("{}.new_with_overflow", name), positional(r, ty))
+            } else {
+                let mut m = Map::new();
+                if ty != "time" { let all = !r.chance(1, 8); date_fields(r, &mut m, ty != "yearmonth", all); }
+                if ty != "date" && ty != "yearmonth" { let d = r.range(0, 4) as u64; time_fields(r, &mut m, d); }
+                let mut args = json!({"p": Value::Object(m)});
+                ovf(r, &mut args);
+                if ty == "zoned" { args["tz"] = json!(*r.pick(&["+00:00", "+00:00", "+05:30", "-08:00", "+14:00"])); }
+                t.call(&format!("{}.from_partial", name), args)
+            };
+            if out["kind"] == "ok" { cur = Some(out["val"].clone()); break; }
+        }
+        // ---- update it (ZonedDateTime::with is not implemented: nothing to chain)
+        if ty != "zoned" {
+            let mut recv = match cur { Some(v) => v, None => { t.reset(); continue; } };
+            for _ in 0..r.range(2, 10) {
+                let mut m = Map::new();
+                if r.chance(1, 40) {
+                    // empty record
+                } else if r.chance(1, 8) {
+                    // some of the value's own fields (identity)
+                    let own: Vec<(&str, &str)> = match ty {
+                        "date" => vec![("year", "y"), ("month", "m"), ("day", "d")],
+                        "yearmonth" => vec![("year", "y"), ("month", "m")],
+                        "time" => TIME_KEYS.iter().map(|k| (k.0, k.1)).collect(),
+                        _ => vec![("year", "y"), ("month", "m"), ("day", "d")].into_iter().chain(TIME_KEYS.iter().map(|k| (k.0, k.1))).collect(),
+                    };
+                    for (k, s) in own { if r.chance(1, 2) { m.insert(k.into(), recv[s].clone()); } }
+                    if ty != "time" && r.chance(1, 2) { m.insert("monthCode".into(), json!(format!("M{:02}", recv["m"].as_i64().unwrap_or(1)))); }
+                } else {
+                    if ty != "time" && r.chance(3, 4) { date_fields(r, &mut m, ty != "yearmonth", false); }
+                    if (ty == "time" || ty == "datetime") && (ty == "time" || r.chance(1, 2)) { let d = r.range(1, 3) as u64; time_fields(r, &mut m, d); }
+                }
+                if m.is_empty() && !r.chance(1, 30) {
+                    if ty == "time" || (ty == "datetime" && r.chance(1, 2)) { let k = r.pick(&TIME_KEYS); m.insert(k.0.into(), json!(field(r, 0, k.2, k.3))); }
+                    else if r.chance(1, 2) { m.insert("month".into(), json!(field(r, 1, 12, 255))); }
+                    else { m.insert("year".into(), json!(any_year(r))); }
+                }
+                let mut args = json!({"recv": recv, "p": Value::Object(m)});
+                ovf(r, &mut args);
+                let out = t.call(&format!("{}.with", name), args);
+                if out["kind"] == "ok" { recv = out["val"].clone(); }
+            }
+        }
+        t.reset();
+    }
 }
